@@ -111,6 +111,17 @@ def swarm_job(job):
         for k, n in (info or {}).items():
             if isinstance(n, (int, float)) and n:
                 res["probes"][f"{name}_{k}"] = res["probes"].get(f"{name}_{k}", 0) + n
+    # an exception whose innermost nessai frame is one of the functions this property is about is a violation of
+    # the property (e.g. the replace step itself failing), not just an aborted run
+    sites = job.get("abort_sites")
+    if sites and res["exits"][-1] == 70:
+        ex = [r for r in out["records"] if r["k"] == "exception"]
+        site = (ex[-1].get("site") or "") if ex else ""
+        if any(s_ in site for s_ in sites):
+            res["violations"].append({"oracle": f"{prop}-step-raised", "key": f"{prop}-step-raised|{ex[-1]['type']}@{site}",
+                                      "detail": {"exception": ex[-1]["type"], "msg": ex[-1]["msg"][:300], "site": site,
+                                                 "phase": ex[-1].get("phase"), "tb": ex[-1]["tb"][-700:]},
+                                      "world": world})
     if res["exits"][-1] == 72:
         res["probes"]["inconclusive_step_budget"] = 1
     sig = scenario_signature(world, res)
@@ -134,8 +145,9 @@ def swarm_job(job):
     return res
 
 
-def run_swarm(r, prop, worlds, judges_=(), oracles=None, need_fault=False, label="swarm"):
-    jobs = [{"world": w, "prop": prop, "judges": list(judges_), "oracles": oracles, "need_fault": need_fault}
+def run_swarm(r, prop, worlds, judges_=(), oracles=None, need_fault=False, label="swarm", abort_sites=None):
+    jobs = [{"world": w, "prop": prop, "judges": list(judges_), "oracles": oracles, "need_fault": need_fault,
+             "abort_sites": abort_sites}
             for w in worlds]
     # determinism self-test on the first two worlds
     st = jobs[:2]
@@ -152,12 +164,13 @@ def run_swarm(r, prop, worlds, judges_=(), oracles=None, need_fault=False, label
     return results
 
 
-def replay_world(r, prop, judges_=(), oracles=None):
+def replay_world(r, prop, judges_=(), oracles=None, abort_sites=None):
     import json
 
     with open(r.replay) as f:
         rep = json.load(f)
-    res = swarm_job({"world": rep["world"], "prop": prop, "judges": list(judges_), "oracles": oracles})
+    res = swarm_job({"world": rep["world"], "prop": prop, "judges": list(judges_), "oracles": oracles,
+                     "abort_sites": abort_sites})
     r.absorb(res)
     return r.finish("replay of one recorded world")
 
@@ -180,14 +193,15 @@ def _drop_fault(world, i):
     return w
 
 
-def make_minimiser(prop, judges_=(), oracles=None, max_runs=40):
+def make_minimiser(prop, judges_=(), oracles=None, max_runs=40, abort_sites=None):
     """Delta-debugging over the fault plan, then a simplification pass over the
     scenario knobs; every candidate is re-executed and kept only if the same
     violation key persists."""
     import copy
 
     def keys_of(world):
-        res = swarm_job({"world": world, "prop": prop, "judges": list(judges_), "oracles": oracles})
+        res = swarm_job({"world": world, "prop": prop, "judges": list(judges_), "oracles": oracles,
+                         "abort_sites": abort_sites})
         return {(v.get("key") or v["oracle"]) for v in res["violations"]}, res.get("digest")
 
     def minimise(v):
